@@ -18,7 +18,7 @@
 #define VX_EMPTY_VT 1
 #define VX_IMPL 2
 #define VX_BIG 1000000000L
-struct base { int vx_kind; bool vx_live; int sender; };
+struct base { int vx_kind; bool vx_live; union { int sender; int operation_state; }; };
 struct sbo { struct base *heap_storage; struct base *object; };
 
 static struct base g_empty_obj;
@@ -68,21 +68,35 @@ static void base_delete(struct base *p)
   g_live--;
 }
 
-static struct base *vx_alloc(int payload)
+/* what `new Impl(ts...)` passes to Impl's constructor, and that constructor (default: Impl stores the sender; it may throw) */
+#ifndef VX_CUSTOM_IMPL_CTOR
+#define VX_TS_T int
+static void vx_impl_ctor(struct base *obj, VX_TS_T ts)
 {
-  if (nondet_bool())
-  {
-    vx_exc = true; /* the constructor of Impl (i.e. of the wrapped sender) throws: nothing was constructed */
-    return NULL;
-  }
+  if (nondet_bool()) vx_exc = true; else obj->sender = ts;
+}
+#else
+/* Impl = any_operation_state_holder_impl<Sender, Ts...>: constructed from (sender, receiver); its real constructor is
+ * lifted in any_units.c */
+struct any_receiver_ref { void *receiver; };                 /* any_receiver_ref<Receiver, Ts...> : any_receiver_ref_base<Ts...> */
+struct any_receiver { struct any_receiver_ref *receiver; };  /* any_receiver<Ts...> */
+struct sender_arg { int token; bool moved; };                /* a wrapped sender passed on: moved (rvalue) or copied (lvalue) */
+struct conn_args { struct sender_arg sender; struct any_receiver receiver; };
+#define VX_TS_T struct conn_args
+static void vx_impl_ctor(struct base *obj, VX_TS_T ts);
+#endif
+/* new-expression: allocate, run the constructor; if it throws the storage is given back and nothing was constructed */
+static struct base *vx_alloc(VX_TS_T ts)
+{
   VX_ASSERT(!g_newed, "ledger universe: at most one allocation per operation");
   g_newed = true;
   g_pool[2].vx_kind = VX_IMPL;
+  vx_impl_ctor(&g_pool[2], ts);
+  if (vx_exc) return NULL;
   g_pool[2].vx_live = true;
-  g_pool[2].sender = payload;
   g_live++;
   return &g_pool[2];
 }
 /* `new Impl(std::forward<Ts>(ts)...)` */
-static struct base *impl_new(int payload) { return vx_alloc(payload); }
+static struct base *impl_new(VX_TS_T ts) { return vx_alloc(ts); }
 #endif
